@@ -455,7 +455,7 @@ Proof.
   assert (Hsec : 0 <= sec <= 60) by (subst sec; destruct leap; lia).
   set (z := if uz && (off =? 0) then Zulu 90 else Numeric (if off <? 0 then 1 else 0) (Z.abs off / 3600) (Z.abs off / 60 mod 60)).
   assert (Hz : wf_zone z = true /\ valid_zone z = true /\ zone_offset z = off /\
-               match z with Zulu c => c =? 90 | Numeric sg _ _ => (sg =? 0) || (sg =? 1) end = true).
+               match z with Zulu _ => true | Numeric sg _ _ => (sg =? 0) || (sg =? 1) end = true).
   { subst z. destruct (uz && (off =? 0)) eqn:Ez.
     - cbn. repeat split; lia.
     - cbn [wf_zone valid_zone zone_offset]. unfold is2. destruct (off <? 0) eqn:En; cbn [Z.eqb]; repeat split; lia. }
